@@ -8,6 +8,7 @@ import (
 	"path/filepath"
 	"runtime/debug"
 	"sort"
+	"strconv"
 	"strings"
 	"sync"
 	"time"
@@ -192,6 +193,7 @@ func (E *Engine) buildVCs(key string) (res *FuncResult) {
 	if len(rets) > 0 {
 		fr.params["result"] = rets[0]
 	}
+	sig := scalarSig(E, fr, f, rets)
 	checkEns := func(c *Contract) {
 		for _, cl := range c.Ensures {
 			t := fr.evalClause(cl, nil, entry, out)
@@ -207,6 +209,7 @@ func (E *Engine) buildVCs(key string) (res *FuncResult) {
 			}
 			o := fx.obligeNamed(base, "ensures", cl.Tags, oc, t, cl.Src, cl.Text)
 			o.Finding = cl.finding()
+			o.Sig = sig
 		}
 	}
 	if ict != nil {
@@ -686,49 +689,380 @@ func (E *Engine) solveOne(r *FuncResult, o *Obligation, dir string, sem chan str
 	}
 	o.Status = "failed"
 	var sb strings.Builder
-	satBy := ""
 	for _, res := range all {
 		sb.WriteString(fmt.Sprintf("%s: %s (%.2fs)\n", res.Solver, res.Status, res.Secs))
 		if res.Status == "sat" && o.Solver == "" {
 			o.Solver = res.Solver
-			satBy = strings.TrimSuffix(res.Solver, "(retry)")
 		}
 		o.Secs += res.Secs
 	}
-	candidate := "a model of the negated obligation"
-	if satBy == "" {
-		// z3 answers unknown on a satisfiable goal with quantified prelude axioms, and still has a candidate
-		// model of the ground part
-		for _, res := range all {
-			if res.Status == "unknown" && strings.HasPrefix(res.Solver, "z3-new") && res.Secs < 2 {
-				satBy = strings.TrimSuffix(res.Solver, "(retry)")
-				candidate = "the candidate model the solver had when it answered unknown (it satisfies the ground part of the negated obligation; the quantified axioms are not all checked)"
-				break
-			}
-		}
-	}
-	if satBy != "" && satBy != "cvc5" {
-		// a solver found a model of the negated obligation: print the values it gives to the parameters
-		mf := f + ".model.smt2"
-		if b, err := os.ReadFile(f); err == nil {
-			writeFile(mf, string(b)+"(get-model)\n")
-			res := runSolver(satBy, mf, qt)
-			var keep []string
-			lines := strings.Split(res.Out, "\n")
-			for i := 0; i < len(lines); i++ {
-				if strings.Contains(lines[i], "(define-fun p_") || strings.Contains(lines[i], "(define-fun |p_") {
-					keep = append(keep, strings.TrimSpace(lines[i]))
-					if i+1 < len(lines) {
-						keep = append(keep, "    "+strings.TrimSpace(lines[i+1]))
-					}
+	// A counterexample candidate: the solvers answer unknown (not sat) on a satisfiable goal because of the
+	// quantified prelude axioms, so the ground part of the negated obligation (every quantified assertion
+	// dropped) is solved separately; its model gives values to the parameters. It is a candidate only: the
+	// replay on the real code decides.
+	if b, err := os.ReadFile(f); err == nil {
+		const maxSeq = 40
+		mf := f + ".ground.smt2"
+		var extra strings.Builder // byte-sequence parameters are short sequences of bytes in a candidate
+		var ts []string           // terms whose values are read back, in this order
+		if o.Sig != nil {
+			for _, r := range o.Sig.Rets {
+				if r.Term != "" {
+					ts = append(ts, r.Term)
 				}
 			}
-			if len(keep) > 80 {
-				keep = keep[:80]
+			for _, p := range o.Sig.Params {
+				if p.Kind != "string" && p.Kind != "bytes" {
+					continue
+				}
+				extra.WriteString(fmt.Sprintf("(assert (and (>= (blen %s) 0) (<= (blen %s) %d)))\n", p.Term, p.Term, maxSeq))
+				ts = append(ts, "(blen "+p.Term+")")
+				if p.Kind == "bytes" {
+					ts = append(ts, p.Arr)
+				}
+				for k := 0; k < maxSeq; k++ {
+					extra.WriteString(fmt.Sprintf("(assert (and (<= 0 (bat %s %d)) (<= (bat %s %d) 255)))\n", p.Term, k, p.Term, k))
+					ts = append(ts, fmt.Sprintf("(bat %s %d)", p.Term, k))
+				}
 			}
-			sb.WriteString("\ncandidate counterexample, parameter values in " + candidate + ":\n" + strings.Join(keep, "\n") + "\n")
-			os.Remove(mf)
 		}
+		q := strings.Replace(groundScript(string(b)), "(check-sat)", extra.String()+"(check-sat)", 1) + "(get-model)\n"
+		if len(ts) > 0 {
+			q += "(get-value (" + strings.Join(ts, " ") + "))\n"
+		}
+		writeFile(mf, q)
+		res := runSolver("z3-new", mf, 5*time.Second)
+		if res.Status == "sat" {
+			keep, raw := modelValues(res.Out)
+			vals := getValues(res.Out)
+			var pins strings.Builder
+			for k, v := range raw {
+				pins.WriteString("(assert (= |" + k + "| " + smtLit(v) + "))\n")
+			}
+			if o.Sig != nil && len(vals) == len(ts) {
+				n := 0
+				for _, r := range o.Sig.Rets {
+					if r.Term == "" {
+						o.CexRets = append(o.CexRets, "")
+						continue
+					}
+					o.CexRets = append(o.CexRets, vals[n])
+					n++
+				}
+				for _, p := range o.Sig.Params {
+					if p.Kind != "string" && p.Kind != "bytes" {
+						continue
+					}
+					ln, _ := strconv.Atoi(vals[n])
+					pins.WriteString(fmt.Sprintf("(assert (= (blen %s) %d))\n", p.Term, ln))
+					n++
+					isNil := false
+					if p.Kind == "bytes" {
+						isNil = vals[n] == "0" && ln == 0
+						if isNil {
+							pins.WriteString("(assert (= " + p.Arr + " 0))\n")
+						} else {
+							pins.WriteString("(assert (not (= " + p.Arr + " 0)))\n")
+						}
+						n++
+					}
+					hx := ""
+					for k := 0; k < maxSeq; k++ {
+						if k < ln {
+							bv, _ := strconv.Atoi(vals[n])
+							hx += fmt.Sprintf("%02x", bv&255)
+							pins.WriteString(fmt.Sprintf("(assert (= (bat %s %d) %d))\n", p.Term, k, bv&255))
+						}
+						n++
+					}
+					if isNil {
+						keep[p.Name] = "nil"
+					} else {
+						keep[p.Name] = "hex:" + hx
+					}
+				}
+			} else if o.Sig != nil {
+				keep = nil
+			}
+			if len(keep) > 0 && o.Sig != nil {
+				// the axioms that were dropped may exclude the candidate: ask with the parameters pinned
+				pf := f + ".pinned.smt2"
+				writeFile(pf, strings.Replace(string(b), "(check-sat)", pins.String()+"(check-sat)", 1))
+				if pr := runSolver("z3-new-noext", pf, 3*time.Second); pr.Status == "unsat" {
+					keep = nil
+					o.CexRets = nil
+					sb.WriteString("\n(a model of the ground part was refuted by the axioms once the parameters were pinned to it; no candidate)\n")
+				}
+				os.Remove(pf)
+			}
+			if len(keep) > 0 {
+				o.Cex = keep
+				var names []string
+				for k := range keep {
+					names = append(names, k)
+				}
+				sort.Strings(names)
+				sb.WriteString("\ncandidate counterexample (model of the ground part of the negated obligation, quantified axioms dropped):\n")
+				for _, k := range names {
+					sb.WriteString(fmt.Sprintf("  %s = %s\n", k, keep[k]))
+				}
+				if o.Sig != nil {
+					sb.WriteString(fmt.Sprintf("  results predicted by the encoding: %v\n", o.CexRets))
+				}
+			}
+		}
+		os.Remove(mf)
 	}
 	o.Model = sb.String()
+}
+
+// topFormsQ splits an SMT-LIB script (quoted symbols and strings respected) into its top-level forms (comments dropped).
+func topFormsQ(s string) []string {
+	var out []string
+	depth, start := 0, -1
+	for i := 0; i < len(s); i++ {
+		c := s[i]
+		switch {
+		case c == ';':
+			for i < len(s) && s[i] != '\n' {
+				i++
+			}
+		case c == '|':
+			i++
+			for i < len(s) && s[i] != '|' {
+				i++
+			}
+		case c == '"':
+			i++
+			for i < len(s) && s[i] != '"' {
+				i++
+			}
+		case c == '(':
+			if depth == 0 {
+				start = i
+			}
+			depth++
+		case c == ')':
+			depth--
+			if depth == 0 && start >= 0 {
+				out = append(out, s[start:i+1])
+				start = -1
+			}
+		}
+	}
+	return out
+}
+
+// groundScript drops every assertion that contains a quantifier and every check-sat but the last.
+func groundScript(s string) string {
+	var sb strings.Builder
+	forms := topFormsQ(s)
+	for i, f := range forms {
+		if strings.HasPrefix(f, "(assert") && (strings.Contains(f, "(forall ") || strings.Contains(f, "(exists ")) {
+			continue
+		}
+		if strings.HasPrefix(f, "(check-sat") && i != len(forms)-1 {
+			continue
+		}
+		if strings.HasPrefix(f, "(get-") || strings.HasPrefix(f, "(push") || strings.HasPrefix(f, "(pop") {
+			continue
+		}
+		sb.WriteString(f)
+		sb.WriteString("\n")
+	}
+	return sb.String()
+}
+
+// modelValues extracts the values of the parameter constants (p_<name>!N) of integer and boolean sort: by
+// parameter name, and by the full constant name.
+func modelValues(out string) (map[string]string, map[string]string) {
+	m, raw := map[string]string{}, map[string]string{}
+	for _, f := range topFormsQ(out) {
+		if !strings.Contains(f, "define-fun") {
+			continue
+		}
+		for _, d := range topFormsQ(f[1 : len(f)-1]) {
+			fs := strings.Fields(d)
+			if len(fs) < 5 || fs[0] != "(define-fun" || fs[2] != "()" {
+				continue
+			}
+			full := strings.Trim(fs[1], "|")
+			if !strings.HasPrefix(full, "p_") {
+				continue
+			}
+			if fs[3] != "Int" && fs[3] != "Bool" {
+				continue
+			}
+			val := normVal(strings.TrimSuffix(strings.Join(fs[4:], " "), ")"))
+			name := full
+			if i := strings.Index(name, "!"); i > 0 {
+				name = name[:i]
+			}
+			if strings.Contains(name, ".") {
+				continue // a component of a composite parameter
+			}
+			m[strings.TrimPrefix(name, "p_")] = val
+			raw[full] = val
+		}
+	}
+	return m, raw
+}
+
+func normVal(v string) string {
+	v = strings.TrimSpace(v)
+	if strings.HasPrefix(v, "(- ") {
+		v = "-" + strings.TrimSpace(strings.TrimSuffix(strings.TrimPrefix(v, "(- "), ")"))
+	}
+	return v
+}
+
+func smtLit(v string) string {
+	if strings.HasPrefix(v, "-") {
+		return "(- " + v[1:] + ")"
+	}
+	return v
+}
+
+// getValues reads the answer of the (get-value ...) that follows the model: the value of each pair.
+func getValues(out string) []string {
+	forms := topFormsQ(out)
+	if len(forms) == 0 {
+		return nil
+	}
+	last := forms[len(forms)-1]
+	if strings.Contains(last, "define-fun") {
+		return nil
+	}
+	var vals []string
+	for _, pair := range topFormsQ(last[1 : len(last)-1]) {
+		kids := sexpKids(pair)
+		if len(kids) == 2 {
+			vals = append(vals, normVal(kids[1]))
+		}
+	}
+	return vals
+}
+
+// sexpKids: the immediate children (atoms and forms) of a form.
+func sexpKids(f string) []string {
+	f = strings.TrimSpace(f)
+	if len(f) < 2 || f[0] != '(' {
+		return nil
+	}
+	f = f[1 : len(f)-1]
+	var out []string
+	depth, start := 0, -1
+	flush := func(i int) {
+		if start >= 0 && depth == 0 {
+			out = append(out, f[start:i])
+			start = -1
+		}
+	}
+	for i := 0; i < len(f); i++ {
+		c := f[i]
+		switch {
+		case c == '|':
+			if start < 0 {
+				start = i
+			}
+			i++
+			for i < len(f) && f[i] != '|' {
+				i++
+			}
+		case c == '(':
+			if depth == 0 && start < 0 {
+				start = i
+			}
+			depth++
+		case c == ')':
+			depth--
+			if depth == 0 {
+				flush(i + 1)
+			}
+		case c == ' ' || c == '\n' || c == '\t':
+			if depth == 0 {
+				flush(i)
+			}
+		default:
+			if start < 0 {
+				start = i
+			}
+		}
+	}
+	if start >= 0 {
+		out = append(out, f[start:])
+	}
+	return out
+}
+
+// scalarSig: f can be called with the values of a model when it has no receiver and every parameter is an
+// integer or a boolean.
+func scalarSig(E *Engine, fr *Frame, f *ssa.Function, rets []Val) *ScalarSig {
+	if f.Signature.Recv() != nil || f.Pkg == nil || len(f.Params) == 0 || f.Signature.Variadic() {
+		return nil
+	}
+	qual := func(p *types.Package) string {
+		if p == f.Pkg.Pkg {
+			return ""
+		}
+		return "?"
+	}
+	sg := &ScalarSig{Pkg: f.Pkg.Pkg.Name(), Func: f.Name()}
+	ps := E.P.Fset.Position(f.Pos())
+	if i := strings.Index(ps.Filename, "/repo/"); i >= 0 {
+		sg.Dir = filepath.Dir(ps.Filename[i+6:])
+	} else if rel, err := filepath.Rel(E.P.Repo, ps.Filename); err == nil {
+		sg.Dir = filepath.Dir(rel)
+	} else {
+		return nil
+	}
+	for _, p := range f.Params {
+		ts := types.TypeString(p.Type(), qual)
+		if strings.Contains(ts, "?") {
+			return nil
+		}
+		v := fr.params[p.Name()]
+		if v.Mut || v.Loc != nil {
+			return nil
+		}
+		switch u := p.Type().Underlying().(type) {
+		case *types.Basic:
+			if len(v.L) != 1 {
+				return nil
+			}
+			switch {
+			case u.Info()&types.IsInteger != 0:
+				sg.Params = append(sg.Params, ScalarParam{Name: p.Name(), GoType: ts, Term: v.L[0], Kind: "int"})
+			case u.Info()&types.IsBoolean != 0:
+				sg.Params = append(sg.Params, ScalarParam{Name: p.Name(), GoType: ts, Term: v.L[0], Kind: "bool", Bool: true})
+			case u.Info()&types.IsString != 0:
+				sg.Params = append(sg.Params, ScalarParam{Name: p.Name(), GoType: ts, Term: v.L[0], Kind: "string"})
+			default:
+				return nil
+			}
+		case *types.Slice:
+			if !isByte(u.Elem()) || len(v.L) != 3 {
+				return nil
+			}
+			sg.Params = append(sg.Params, ScalarParam{Name: p.Name(), GoType: ts, Term: v.L[0], Arr: v.L[1], Kind: "bytes"})
+		default:
+			return nil
+		}
+	}
+	res := f.Signature.Results()
+	for i := 0; i < res.Len() && i < len(rets); i++ {
+		t := res.At(i).Type()
+		r := ScalarRet{Kind: "other"}
+		if b, ok := t.Underlying().(*types.Basic); ok && len(rets[i].L) == 1 {
+			if b.Info()&types.IsInteger != 0 {
+				r = ScalarRet{Kind: "int", Term: rets[i].L[0]}
+			} else if b.Info()&types.IsBoolean != 0 {
+				r = ScalarRet{Kind: "bool", Term: rets[i].L[0]}
+			}
+		} else if types.Identical(t, types.Universe.Lookup("error").Type()) && len(rets[i].L) > 0 {
+			r = ScalarRet{Kind: "error", Term: eq(rets[i].L[0], "0")}
+		}
+		sg.Rets = append(sg.Rets, r)
+	}
+	return sg
 }
